@@ -252,10 +252,17 @@ func (v *VM) Eval(sys fs.FS, fname, input string, options ...RunOption) (rets []
 	return rets, nil
 }
 
+// maxCallDepth bounds the nesting of script calls. Every script call nests Go calls, and a Go stack overflow is a
+// fatal error that no recover catches: a recursion this deep ends with a run-time error instead.
+const maxCallDepth = 250000
+
 func mkFunc(args, rets, slots int, tokens []instruction) func(v *VM) {
 	empty := make([]Value, slots-args)
 	codes := tokens[args+rets:]
 	return func(v *VM) {
+		if len(v.backtrace) >= maxCallDepth {
+			panic("call stack too deep")
+		}
 		v.backtrace = append(v.backtrace, v.frame.Codes[v.frame.N].Pos)
 		prev := v.frame
 		v.frame = frame{
